@@ -690,7 +690,7 @@ def end_of_build_facts(workflow):
 
 
 TABLES = ["node", "dependency", "file", "step", "step_hash", "nglob", "dynamic_dep", "env_var",
-          "step_resource"]
+          "step_resource", "step_outcome"]
 
 
 def dump_tables(con):
